@@ -617,11 +617,11 @@ def run(ctx):
     exe, drv = build(ctx)
     if exe and drv:
         mult = 1 if quick else 8
-        corr_hc(ctx, exe, drv, 250 * mult, 150 * mult)
-        corr_ss(ctx, exe, drv, 200 * mult)
-        corr_es(ctx, exe, drv, 200 * mult)
-        corr_hz(ctx, exe, drv, 150 * mult)
-        corr_bk(ctx, exe, drv, 150 * mult)
+        corr_hc(ctx, exe, drv, 600 * mult, 300 * mult)
+        corr_ss(ctx, exe, drv, 500 * mult)
+        corr_es(ctx, exe, drv, 500 * mult)
+        corr_hz(ctx, exe, drv, 400 * mult)
+        corr_bk(ctx, exe, drv, 400 * mult)
         # known finding (DESIGN 7.20): replay the witness of C37_ss_normal_never_attractive_refuted on the real code
         w = replay_ss_witness(ctx, exe)
         ctx.extra['ss_witness_Fy_on_sphere'] = w
